@@ -24,6 +24,7 @@ func propC16(c *Ctx) {
 	c.ruleOnceNotAroundPanic("C16-ONCE-NO-PANIC")
 	c.ruleDepASTReadOnly("C16-DEP-AST-READ-ONLY")
 	c.ruleDepCalls("C16-DEP-CALLS")
+	c.ruleOnceOwnObject("C16-ONCE-OWN-OBJECT")
 	c.ruleGlobalState("C16-GLOBAL-STATE")
 }
 
@@ -90,6 +91,81 @@ func (c *Ctx) ruleMarshalPurity(rule string) {
 	}
 	r.Stats["c16_functions"] = len(fns)
 	r.Stats["c16_violating_writes"] = n
+}
+
+// ruleOnceOwnObject: what a once-only initialiser writes stays: it is not repeated and not undone. If it writes into
+// another object of the model than the one it initialises (the user type it inherits from, a sibling interaction), then
+// whoever serialises that other object BEFORE the initialiser has run sees other bytes than whoever does it after:
+// the first ToJson and the second one differ.
+func (c *Ctx) ruleOnceOwnObject(rule string) {
+	r := c.R
+	r.Rule(rule, "the code run under a (*sync.Once).Do of the library (closure or named function, with everything it reaches) writes only into memory it allocated itself or into the object that owns the Once (what the closure captured): no store lands in another pre-existing object of the catalog/core/directive model or in a package variable (write effects over SSA to a fixpoint; a copy of an existing value shares what its pointers lead to)", 2)
+	n := 0
+	for _, pkgFn := range c.libFns() {
+		sf := c.P.SSAFunc(pkgFn.Obj)
+		if sf == nil {
+			continue
+		}
+		var scan func(f *ssa.Function)
+		scan = func(f *ssa.Function) {
+			for _, b := range f.Blocks {
+				for _, ins := range b.Instrs {
+					ci, ok := ins.(ssa.CallInstruction)
+					if !ok || !isOnceDo(ci.Common().StaticCallee()) || len(ci.Common().Args) < 2 {
+						continue
+					}
+					var root *ssa.Function
+					switch a := ci.Common().Args[1].(type) {
+					case *ssa.MakeClosure:
+						root, _ = a.Fn.(*ssa.Function)
+					case *ssa.Function:
+						root = a
+					}
+					if root == nil {
+						continue
+					}
+					n++
+					fns := c.reachableLibOpts([]*ssa.Function{root}, nil, false)
+					e := c.computeEffects(fns)
+					var names []*ssa.Function
+					for g := range fns {
+						names = append(names, g)
+					}
+					sort.Slice(names, func(i, j int) bool { return prog.SSAName(names[i]) < prog.SSAName(names[j]) })
+					// a package-level Once owns package-level state (judged by the GLOBAL-STATE rule)
+					globalOnce := e.rootOf(ci.Common().Args[0], 0).kind == oGlobal
+					bad := 0
+					for _, g := range names {
+						for _, w := range e.direct[g] {
+							t := w.typ
+							if t == "" {
+								t = typeOfWhat(w.what)
+							}
+							if w.org.kind != oGlobal && !modelType(t) {
+								continue
+							}
+							if w.org.kind == oGlobal && globalOnce {
+								continue
+							}
+							bad++
+							key := fmt.Sprintf("%s | Once in %s | %s", prog.SSAName(g), prog.SSAName(f), trimVia(w.what))
+							r.Bad(rule, key, fmt.Sprintf("once-only initialisation writes into an object it does not own (%s; origin: %s): that object serialises differently before and after the initialiser has run, so the first and a later ToJson differ", w.what, originDesc(w.org)), c.pos(w.pos))
+						}
+					}
+					if bad == 0 {
+						r.Ok(rule, "Once in "+prog.SSAName(f), fmt.Sprintf("%d functions reachable from the once-only code: every write stays in fresh memory or in the owner", len(fns)), c.pos(ci.Pos()))
+					}
+				}
+			}
+			for _, an := range f.AnonFuncs {
+				scan(an)
+			}
+		}
+		scan(sf)
+	}
+	if n == 0 {
+		r.Undecided(rule, "sites", "no (*sync.Once).Do found in the library", "")
+	}
 }
 
 func trimVia(s string) string {
@@ -182,6 +258,37 @@ func (c *Ctx) ruleDepCalls(rule string) {
 	r := c.R
 	r.Rule(rule, "calls of dependency functions classified stateful must sit inside a sync.Once.Do closure (memoised once); results of functions classified pool-backed must be consumed at once by a copying conversion (string(x), append([]byte(nil), x...), bytes.Clone) and never be stored in a field, captured or returned as []byte", 2)
 	n := 0
+	var serDecls map[*types.Func]bool
+	// functions of the dependency that reach a classified one inherit its class (reference/dep_stateful.json)
+	reach, why := c.depReach()
+	if reach == nil {
+		r.Undecided(rule, "inherited classification", why, "")
+	} else {
+		r.Ok(rule, "inherited classification", fmt.Sprintf("%d functions of the dependency reach a classified one (reference made for the version go.mod requires)", len(reach)), "")
+		if c.Deep {
+			// deep load at hand: the reference must be what the call graph says today
+			now := c.computeDepReach()
+			var diff []string
+			for _, k := range sortedStrKeys(now) {
+				if _, ok := reach[k]; !ok {
+					diff = append(diff, "+"+k)
+				}
+			}
+			for _, k := range sortedStrKeys(reach) {
+				if _, ok := now[k]; !ok {
+					diff = append(diff, "-"+k)
+				}
+			}
+			if len(diff) > 0 {
+				if len(diff) > 5 {
+					diff = append(diff[:5], fmt.Sprintf("... %d more", len(diff)-5))
+				}
+				r.Undecided(rule, "inherited classification (recomputed)", "reference/dep_stateful.json differs from the call graph of the dependency: "+strings.Join(diff, " "), "")
+			} else {
+				r.Ok(rule, "inherited classification (recomputed)", "equal to the reverse reachability computed on the deep load", "")
+			}
+		}
+	}
 	for _, f := range c.libFns() {
 		pk := f.Pkg
 		inspectWithStack(f.Decl.Body, func(nd ast.Node, stack []ast.Node) bool {
@@ -194,6 +301,19 @@ func (c *Ctx) ruleDepCalls(rule string) {
 				return true
 			}
 			class, ok := depAPI[cal.FullName()]
+			if !ok {
+				// inherited class: it matters where a serialiser can get to it outside a Once (what a constructor does
+				// once per build, to objects of that build, is not repeated by repeated serialisation)
+				if class, ok = reach[cal.FullName()]; ok {
+					if serDecls == nil {
+						fns, _ := c.serialiseFunctions()
+						serDecls = reachDecls(fns)
+					}
+					if !serDecls[f.Obj] {
+						return true
+					}
+				}
+			}
 			if !ok {
 				return true
 			}
